@@ -437,6 +437,11 @@ def c03(rep, tier):
     rep.analysed(pop)
     gp = m.cfg(pop)
     prog_inits = [e for e in walk_all_exprs(pop['body']) if e.get('k') == 'init' and (e.get('rec') or '').endswith('Prog')]
+    if not prog_inits:
+        # Prog(ind, mi, argnum, stack_size): a constructor that stores its arguments unchanged is read as the aggregate it replaces
+        from .genrules import as_record_init
+        prog_inits = [r_ for r_ in (as_record_init(m.facts, e) for e in walk_all_exprs(pop['body']) if e.get('k') == 'construct' and (e.get('rec') or '').endswith('Prog') and e.get('args'))
+                      if r_ is not None]
     if len(prog_inits) != 1:
         D.unknown('popSymbols: Prog record', '%d Prog initialisers' % len(prog_inits))
         pf = {}
@@ -1365,7 +1370,29 @@ def c08(rep, tier):
             A.check(same, 'breakpoint(): one location', 'the location stored in line_info is the key of potential_breaks',
                     'tables are updated with different locations: %s vs %s' % (show(li[2]), show(pbk[2])), W(m, bp))
             o = m.origin(bp, pbk[2])
-            okfs = o is not None and o.get('k') == 'init' and dict((n, field_chain(v)[1]) for n, v in o['fields']) == {'file': ['fs', 'name'], 'line': ['fs', 'line']}
+            def fs_field(v):
+                # fs.name / fs.line, directly or through a one-line const accessor of the file-state record (fs.fileName() { return name; })
+                v0 = strip_copies(strip_casts(v)) if v is not None else None
+                if v0 is not None and v0.get('k') == 'call' and not v0.get('args') and v0.get('obj') is not None and v0.get('callee_in_repo'):
+                    acc = [y for y in m.all_fns() if y['q'] == v0.get('callee') and y.get('body') is not None]
+                    if len(acc) == 1:
+                        rets_ = [s2 for s2 in walk_stmts(acc[0]['body']) if s2['k'] == 'return' and s2.get('e') is not None]
+                        oth_ = [s2 for s2 in walk_stmts(acc[0]['body']) if s2['k'] not in ('return', 'block')]
+                        if len(rets_) == 1 and not oth_:
+                            return field_chain(v0['obj'])[1] + field_chain(rets_[0]['e'])[1][-1:]
+                return field_chain(v0)[1] if v0 is not None else []
+            flds_ = None
+            if o is not None and o.get('k') == 'init':
+                flds_ = dict((n, fs_field(v)) for n, v in o['fields'])
+            elif o is not None and o.get('k') == 'construct' and (o.get('rec') or '').split('::')[-1] == 'BreakPoint' and len(o.get('args', [])) == 2:
+                # BreakPoint(file, line): a constructor that stores both arguments unchanged (member initialisers from the parameters)
+                ct = [y for y in m.facts.functions if y.get('kind') == 'ctor' and y['q'].rsplit('::', 1)[0].split('::')[-1] == 'BreakPoint' and len(y.get('params', [])) == 2 and y.get('body') is not None]
+                plain = len(ct) >= 1 and all(len([ci for ci in (y.get('ctor_inits') or []) if ci.get('field') in ('file', 'line') and
+                                                  any(z.get('k') == 'ref' and z.get('dk') == 'param' for z in walk_expr(ci.get('init') or {}))]) == 2 and
+                                             not [s2 for s2 in walk_stmts(y['body']) if s2['k'] != 'block'] for y in ct)
+                if plain:
+                    flds_ = {'file': fs_field(o['args'][0]), 'line': fs_field(o['args'][1])}
+            okfs = flds_ == {'file': ['fs', 'name'], 'line': ['fs', 'line']}
             A.check(okfs, 'breakpoint(): location is the current position', '{file = fs.name, line = fs.line}',
                     'location is %s, not the current file state' % show(o), W(m, bp))
     # ---- b exact removal
@@ -2282,7 +2309,10 @@ def c07(rep, tier):
             if is_call(e, '::push_back') and e.get('obj') is not None and field_chain(e['obj'])[1][-1:] == ['register_state']:
                 init = strip_casts(e['args'][0])
                 init = strip_copies(init)
-                flds = dict(init['fields']) if init.get('k') == 'init' else {}
+                if init.get('k') == 'construct':
+                    from .genrules import as_record_init
+                    init = as_record_init(m.facts, init) or init       # VReg(in_use, is_temp, name) with a constructor that stores its arguments
+                flds = dict((a_, b_) for a_, b_ in init['fields']) if init.get('k') == 'init' else {}
                 istemp = strip_casts(flds.get('is_temp')) if flds else None
                 if istemp is None or istemp.get('k') != 'bool':
                     F.unknown('%s: register_state.push_back' % f['q'], 'is_temp not a literal')
